@@ -38,6 +38,16 @@ pub async fn seed_dataset(
     let pw = ParquetWriter::new();
     let mut gen = RowGen::new();
     let mut out = Vec::new();
+    // schema shapes: one dataset in twelve mixes chunks whose value column has the same name but another type (Int64
+    // next to Float64); one in fifteen stores its timestamps in microseconds
+    let mixed_types = variant == 2 && sim::w(12) == 11;
+    let micros = variant == 2 && !mixed_types && sim::w(15) == 14;
+    if mixed_types {
+        sim::probe("dataset-mixes-value-column-types");
+    }
+    if micros {
+        sim::probe("dataset-with-microsecond-timestamps");
+    }
     // one dataset in twenty-five has a chunk that is read back in two record batches (more than 8192 rows)
     let big_chunk = if sim::w(25) == 24 { Some(sim::w(n_chunks.max(1) as u32) as usize) } else { None };
     for c in 0..n_chunks {
@@ -66,6 +76,14 @@ pub async fn seed_dataset(
                 gen.row(ts, extreme)
             })
             .collect();
+        let variant = if micros {
+            9
+        } else if mixed_types && sim::w_bool(50) {
+            8
+        } else {
+            variant
+        };
+        let rows: Vec<Row> = if micros { rows.into_iter().map(|mut r| { r.ts -= r.ts.rem_euclid(1000); r }).collect() } else { rows };
         let rb = batch(variant, &rows);
         let bytes = pw.write_batch(&rb).expect("parquet");
         let path = format!("default/data/seed/chunk_{c}.parquet");
@@ -129,15 +147,19 @@ pub async fn catalog_now(inner: &Arc<InMemory>) -> Option<MetadataCatalog> {
 pub struct FileIndex {
     pub ids: BTreeMap<String, Vec<i64>>,
     pub rows: BTreeMap<String, Vec<String>>,
+    /// true (min, max) timestamp in ns of the rows of every data file ever PUT
+    pub bounds: BTreeMap<String, (i64, i64)>,
 }
 
 impl FileIndex {
     pub async fn build(inner: &Arc<InMemory>, seeds: &[SeedChunk]) -> FileIndex {
         let mut ids = BTreeMap::new();
         let mut rows = BTreeMap::new();
+        let mut bounds = BTreeMap::new();
         for s in seeds {
             ids.insert(s.path.clone(), s.ids.clone());
             rows.insert(s.path.clone(), s.rows.clone());
+            bounds.insert(s.path.clone(), (s.min, s.max));
         }
         for e in store::events() {
             if e.op == "PUT" && e.ok && e.path.ends_with(".parquet") {
@@ -145,12 +167,16 @@ impl FileIndex {
                     if let Ok(bs) = decode_parquet(p.clone()) {
                         ids.insert(e.path.clone(), bs.iter().flat_map(ids_of).collect());
                         rows.insert(e.path.clone(), bs.iter().flat_map(row_strings).collect());
+                        let ts: Vec<i64> = bs.iter().flat_map(ts_of).collect();
+                        if let (Some(mn), Some(mx)) = (ts.iter().min(), ts.iter().max()) {
+                            bounds.insert(e.path.clone(), (*mn, *mx));
+                        }
                     }
                 }
             }
         }
         let _ = inner;
-        FileIndex { ids, rows }
+        FileIndex { ids, rows, bounds }
     }
 }
 
